@@ -364,7 +364,7 @@ def gen_meta(r, cid):
             else:
                 do_step(w)
     return {"kind": "meta", "id": cid, "n": n, "nbins": NB, "hillfreq": hillfreq, "upfreq": upfreq,
-            "restartfreq": restartfreq, "lockstep": lock, "events": events}
+            "restartfreq": restartfreq, "lockstep": lock, "grids": r.random() < 0.7, "events": events}
 
 
 def meta_primitives(case):
@@ -487,6 +487,7 @@ def check_meta(run, exe, model, cases, scratch, fixflags="1 1"):
         run.dist("meta:lockstep" if c["lockstep"] else "meta:async")
         nrest = sum(1 for e in c["events"] if e[0] == "r")
         run.dist("meta:restarts" if nrest else "meta:no-restart")
+        run.dist("meta:useGrids-on" if c.get("grids", True) else "meta:useGrids-off")
         run.count(json.dumps([c["events"], c["restartfreq"], c["upfreq"], c["hillfreq"]]), True)
         run.sample({"kind": "meta", "n": n, "hillfreq": c["hillfreq"], "upfreq": c["upfreq"], "restartfreq": c["restartfreq"],
                     "lockstep": c["lockstep"], "events": c["events"][:14], "more_events": max(0, len(c["events"]) - 14)}, cap=4)
@@ -550,7 +551,7 @@ def check_meta(run, exe, model, cases, scratch, fixflags="1 1"):
                 break
             w, snap, d = out[k]
             if d["own"] is None:
-                run.violation("meta:no-state", "walker %d printed no state after event %d" % (w, k), {"kind": "meta", "case": c, "event": k})
+                run.violation("meta:no-state", "walker %d has no metadynamics bias after event %d %s (useGrids %s): %s" % (w, k, ev, "on" if c.get("grids", True) else "off", d["errtext"].strip()[:200]), {"kind": "meta", "case": c, "event": k})
                 break
             did_share = any(p[0] == "share" and p[1] == w for p in prims[k])
             # ---- own data untouched (oracle on the implementation alone)
@@ -679,7 +680,7 @@ def gen_view(r, cid, robust=False):
             else:
                 events.append(["pg", r.choice([None, None, 1, 2, 3, 4, 10, 20, 30])])
     c = {"kind": "view", "id": cid, "n": 2, "nbins": NB, "hillfreq": hillfreq, "upfreq": upfreq,
-         "restartfreq": restartfreq, "robust": robust, "events": events}
+         "restartfreq": restartfreq, "robust": robust, "grids": r.random() < 0.7, "events": events}
     if robust:
         c["late_register"] = r.random() < 0.7
         events.append(["pg", None])
@@ -696,6 +697,7 @@ def gen_view(r, cid, robust=False):
 def check_view(run, exe, model, cases, scratch, fixflags="1 1"):
     for c in cases:
         run.dist("view:robust" if c["robust"] else "view:prefix")
+        run.dist("view:useGrids-on" if c.get("grids", True) else "view:useGrids-off")
         run.count(json.dumps([c["events"], c["restartfreq"], c["upfreq"], c["hillfreq"]]), True)
         run.sample({"kind": "view", "hillfreq": c["hillfreq"], "upfreq": c["upfreq"], "restartfreq": c["restartfreq"],
                     "events": c["events"][:14], "more_events": max(0, len(c["events"]) - 14)}, cap=6)
